@@ -1,0 +1,43 @@
+//go:build verif
+
+// Exports of unexported functions for the verification harness in /verif (build tag "verif" only).
+// This file only adds code; nothing in it is compiled without the tag.
+
+package saml2
+
+import (
+	"crypto/tls"
+
+	"github.com/beevik/etree"
+	"github.com/russellhaering/gosaml2/types"
+)
+
+func VerifParseResponse(xml []byte, maxSize int64) (*etree.Document, *etree.Element, error) {
+	return parseResponse(xml, maxSize)
+}
+
+func VerifMaybeDeflate(data []byte, maxSize int64, decoder func([]byte) error) error {
+	return maybeDeflate(data, maxSize, decoder)
+}
+
+func VerifXMLUnmarshalElement(el *etree.Element, obj interface{}) error {
+	return xmlUnmarshalElement(el, obj)
+}
+
+func (sp *SAMLServiceProvider) VerifGetDecryptCert() (*tls.Certificate, error) {
+	return sp.getDecryptCert()
+}
+
+func (sp *SAMLServiceProvider) VerifDecryptAssertions(el *etree.Element) error {
+	return sp.decryptAssertions(el)
+}
+
+func (sp *SAMLServiceProvider) VerifValidateResponseAttributes(response *types.Response) error {
+	return sp.validateResponseAttributes(response)
+}
+
+func VerifSignatureInputString(samlRequest, relayState, sigAlg string) string {
+	return signatureInputString(samlRequest, relayState, sigAlg)
+}
+
+const VerifDefaultMaxDecompressedResponseSize = defaultMaxDecompressedResponseSize
